@@ -16,6 +16,9 @@
 #ifndef FIXP
 #define FIXP 0
 #endif
+#ifndef FLDW
+#define FLDW 10
+#endif
 #ifndef TPL
 #define TPL 0                     /* stream template: 0 = all bytes after the fixed prefix arbitrary; 1..3 see below */
 #endif
@@ -44,8 +47,9 @@ int main(void)
     uint8_t b = nondet_u8(); if (i < FIXP) b = pre[i];
 #if TPL == 1                      /* BodyLength field = one arbitrary byte: "8=FIX.4.2|9=?|..." */
     if (i == 13) b = 1;
-#elif TPL == 2                    /* BodyLength field = ten arbitrary bytes */
-    if (i == 22) b = 1;
+#elif TPL == 2                    /* BodyLength field = FLDW arbitrary bytes (each a digit, SOH or anything else: every digit count 0..FLDW,
+                                     every value incl. those near and beyond 2^32), closed by SOH */
+    if (i == 12 + FLDW) b = 1;
 #elif TPL == 3                    /* 13 arbitrary bytes, then a run of the digit '1' closed by SOH at the end of the stream */
     if (i >= 13) b = (i == L - 1) ? 1 : '1';
 #elif TPL == 4                    /* "8=FIX.4.2|9" (FIXP=11), three arbitrary bytes, SOH: second field's tag and first value byte arbitrary */
